@@ -342,13 +342,53 @@ def g4(prog, rep, tier):
     rep.check(len(vals) == 3 and len(set(vals.values())) == 1 and all(v for v in vals.values()), "G4-siblings", "expand / encrypt / free dispatch on the same selector value", u.path, "%s" % vals, function="crypto_aes", construct="same-selector")
 
 
+SIGN_DEPENDENT = ("_mm_srai_", "_mm_sra_", "_mm_adds_", "_mm_subs_", "_mm_packs_", "_mm_packus_", "_mm_cmpgt_", "_mm_cmplt_", "_mm_max_epi", "_mm_min_epi",
+                  "_mm_cvtepi8_", "_mm_cvtepi16_", "_mm_cvtepi32_", "_mm_madd_", "_mm_mulhi_epi", "_mm_sign_", "_mm_abs_")
+
+
+def g5(prog, rep):
+    """SHA-256, CRC32C and AES are defined with bitwise, logical-shift and modular operations only.  A sign-dependent
+    vector operation (arithmetic shift, saturating arithmetic, signed compare/pack/extend) in an accelerated unit makes
+    the result depend on the top bits of data bytes, which the units' fixed self-test vectors (bytes 0x00..0x3f, ASCII
+    text) cannot exercise -- so the run-time self-test would pass and the wrong path stay enabled."""
+    n = 0
+    for au in ACCEL:
+        u = prog.unit(au)
+        for f in u.funcs:
+            if f.file != au:
+                continue
+            n += 1
+            bad = [c for c in f.calls() if c.callee and c.callee.startswith(SIGN_DEPENDENT)]
+            # the intrinsics are inline functions wrapping builtins: also look at the builtin names
+            bad += [c for c in f.calls() if c.callee and ("psra" in c.callee or "padds" in c.callee or "psubs" in c.callee or "pcmpgt" in c.callee or "packss" in c.callee)]
+            rep.check(not bad, "G5-signfree", "%s uses no sign-dependent vector operation" % f.name, bad[0].where if bad else f.loc,
+                      "%s: the specified functions use only logical shifts and modular arithmetic; the self-test vector has no high-bit bytes, so it cannot notice" % [c.callee for c in bad],
+                      function=f.name, construct="sign-dependent")
+    if n < 8:
+        rep.defer_broken("G5: fewer than 8 functions in the accelerated units")
+    # byte swap of the SSE2 message load: 16-bit halves swapped with logical shifts by 8, then 16-bit words swapped
+    u = prog.unit("alg/sha256_sse2.c")
+    f = u.func("mm_bswap_epi32")
+    if f is not None:
+        calls = []
+        for c in sorted(f.calls(), key=lambda c: (c.line, c.i)):
+            nm = c.macro[0] if c.macro and c.macro[0].startswith("_mm_") else c.callee
+            if nm and nm.startswith("_mm_"):
+                calls.append((nm, c.arg(1).strip().val if len(c.args) > 1 and c.arg(1) is not None else None))
+        want = {("_mm_slli_epi16", 8), ("_mm_srli_epi16", 8), ("_mm_or_si128", None), ("_mm_shufflelo_epi16", 0xB1), ("_mm_shufflehi_epi16", 0xB1)}
+        got = set((a, b) for a, b in calls if a != "_mm_or_si128") | {("_mm_or_si128", None)}
+        rep.check(got == want, "G5-signfree", "mm_bswap_epi32: (a << 8) | (a >>logical 8) per 16-bit lane, then swap the 16-bit words of each 32-bit lane", f.loc, "%s" % sorted(calls, key=str),
+                  function=f.name, construct="bswap")
+
+
 def run(tier):
     rep = report.Report("C03", tier,
         "Decided in every analysed feature configuration: instruction-set specific routines are used only under the matching selector, "
         "the run-time CPU test, or inside self-test helpers (G1); a selector is stored only behind the run-time test of every feature "
         "its unit is compiled for and a passing self-test whose call tree contains the routine (G2); length thresholds imply the "
         "accelerated routines' preconditions (G3); instruction-set flags appear only on the accelerated units, and sibling dispatchers "
-        "agree on the selector (G4). NOT decided: equality of accelerated and portable results for all inputs -- that is delegated to "
+        "agree on the selector (G4); accelerated units use no sign-dependent vector operation, which their self-test vectors could not "
+        "notice (G5); the portable and AES-NI CTR code agree on counter layout and position bookkeeping (L rules shared with C02). NOT decided: equality of accelerated and portable results for all inputs -- that is delegated to "
         "the library's run-time self-tests, whose wiring G2 verifies; a wrong constant inside an accelerated transform is caught by "
         "that self-test at run time and falls back, so no table check is armed there.",
         trusted=["the self-tests' known-answer vectors", "cpusupport_x86_* run-time probes"])
@@ -364,6 +404,11 @@ def run(tier):
             g1_g2(prog, rep, enums)
             g3(prog, rep)
             g4(prog, rep, tier)
+            g5(prog, rep)
+            # the AES-CTR siblings must agree on counter layout and position bookkeeping (rules shared with C02)
+            from . import c02
+            c02.l1_l3(prog, rep)
+            c02.l2_l4(prog, rep)
         else:
             # in a reduced configuration: accelerated units whose feature is absent define nothing, and the rules hold on what remains
             feats = set(cfg.features)
